@@ -86,10 +86,55 @@ def _r5(ctx, pkg):
     ctx.floor("R5", "NetworkInfo constructions", n, 2)
 
 
+def _over_elements(it, ELEMS):
+    """does a loop over `it` visit position k of the element list in its k-th iteration, for every k?  `it` is the list itself, an
+    unfiltered one-to-one view of it (the names), enumerate(..) of such, or zip(..) of such views only"""
+    def view(x):
+        mm = as_map(x) if x[0] in ("comp", "copy", "attr", "param") else None
+        return bool(mm) and mm[2] == ELEMS and not mm[3]
+    b = match(("call", ("global", "enumerate"), (V("s"),), ()), it)
+    if b:
+        return view(b["s"])
+    if it[0] == "call" and it[1] == ("global", "zip") and it[2] and not it[3]:
+        return all(view(a) for a in it[2])
+    return view(it)
+
+
+def _acc_as_map(fl, name, outer, ELEMS):
+    """A list local built by `name = []` + one (guarded) `name.append(v)` in a loop that runs inside the loops `outer`, seen as the
+    comprehension it is equal to: (bv, body, base, ifs) like valueflow.as_map, or None.  Only for loops over the element list
+    (the loop's element is what `bv` stands for)."""
+    init = [f for f in fl.facts if f.kind == "init" and f.target == name]
+    writes = [f for f in fl.facts if f.target == name and f.kind in ("append", "remove", "mutate", "store", "augstore")]
+    outer_ids = tuple(l.id for l in outer)
+    if len(init) != 1 or init[0].value != ("list", ()) or tuple(l.id for l in init[0].loops) != outer_ids or init[0].guards:
+        return None
+    if len(writes) != 1 or writes[0].kind != "append" or len(writes[0].loops) != len(outer) + 1 or tuple(l.id for l in writes[0].loops[:-1]) != outer_ids:
+        return None
+    w = writes[0]
+    L = w.loops[-1]
+    if not _over_elements(simp(L.iter), ELEMS):
+        return None
+    if any(x.kind in ("break", "return") and any(l.id == L.id for l in x.loops) for x in fl.facts):
+        return None
+    bv = ("bv", "_acc", L.id)
+    e = ("elem", ELEMS, L.id)
+    body = simp(subst(simp(w.value), {e: bv}))
+    ifs = []
+    for c, pol in w.guards:
+        c = simp(subst(simp(c), {e: bv}))
+        ifs.append(c if pol else ("unop", "Not", c))
+    # nothing of the loop may be left in the body but through the element
+    if any(isinstance(x, tuple) and len(x) == 3 and x[0] in ("elem", "idx") and x[2] == L.id for t in [body] + ifs for x in walk(t)):
+        return None
+    return (bv, body, ELEMS, tuple(ifs))
+
+
 def check(ctx):
     pkg = package(ctx.tree)
     _r5(ctx, pkg)
-    fn = pkg.method("TemplateLoader", "_prepare_renorm_content")
+    # helpers the method may have been split into (one matrix entry, one factor, ...) are put back first
+    fn = pkg.expanded("TemplateLoader", "_prepare_renorm_content")
     ctx.saw(FILE, "TemplateLoader._prepare_renorm_content")
     fl = Flow(fn, FILE)
     NI = ("param", [a.arg for a in fn.args.args if a.arg != "self"][0])
@@ -115,12 +160,9 @@ def check(ctx):
     Li, Lj = mf.loops
     ok_loops = all(simp(l.iter) == ("call", ("global", "enumerate"), (("comp", "list", None, None),), ()) or True for l in (Li, Lj))
     its = [simp(l.iter) for l in (Li, Lj)]
-    en = []
-    for it in its:
-        b = match(("call", ("global", "enumerate"), (V("s"),), ()), it)
-        mm = as_map(b["s"]) if b else None
-        en.append(bool(mm) and mm[2] == ELEMS and not mm[3] and simp(subst(mm[1], {mm[0]: ("bv", "_", 0)})) == NAME(("bv", "_", 0)))
-    ctx.check(all(en), "R1", "matrix:loops", (FILE, mf.line), "matrix entries are appended row-major over enumerate(element names) x enumerate(element names), names = first key of each element's element_count",
+    en = [_over_elements(it, ELEMS) for it in its]
+    ctx.check(all(en), "R1", "matrix:loops", (FILE, mf.line), "matrix entries are appended row-major over the elements x the elements (every element once, in the order of netinfo.elements: "
+              "a plain / enumerate / zip loop over the element list or one-to-one views of it such as the element names)",
               found="; ".join(show(i)[:80] for i in its))
     ei, ej = ("elem", ELEMS, Li.id), ("elem", ELEMS, Lj.id)
     v = simp(mf.value)
@@ -178,20 +220,31 @@ def check(ctx):
 
     # ------------------------------------------------------------ R1 factor
     facs = [f for f in fl.facts if f.kind == "append" and f.target == fac_name]
+    fguards = ()
+    fvalue = None
+    if len(facs) == 2 and len(facs[0].loops) == 1 and tuple(l.id for l in facs[0].loops) == tuple(l.id for l in facs[1].loops) \
+            and len(facs[0].guards) == 1 and len(facs[1].guards) == 1 and simp(facs[0].guards[0][0]) == simp(facs[1].guards[0][0]) and facs[0].guards[0][1] != facs[1].guards[0][1]:
+        # `if c: X.append(a) else: X.append(b)` is `X.append(a if c else b)`: exactly one of the two runs in every iteration
+        t_, e_ = (facs[0], facs[1]) if facs[0].guards[0][1] else (facs[1], facs[0])
+        fvalue = ("ifexp", simp(t_.guards[0][0]), simp(t_.value), simp(e_.value))
+        facs = [e_]
+    elif len(facs) == 1:
+        fguards = facs[0].guards
     if len(facs) != 1 or len(facs[0].loops) != 1:
         ctx.bad("R1", "factor:site", W, f"expected one append to `{fac_name}` in the species loop, found {[(f.line, len(f.loops)) for f in facs]}")
         return
     ff = facs[0]
     Lf = ff.loops[0]
-    ctx.check(simp(Lf.iter) == SPEC and not ff.guards, "R1", "factor:species-loop", (FILE, ff.line),
+    ctx.check(simp(Lf.iter) == SPEC and not fguards, "R1", "factor:species-loop", (FILE, ff.line),
               "one factor per species, in the order of the unfiltered species list (the order RenormAbundance zips with)", found=show(simp(Lf.iter))[:80])
     s2 = ("elem", SPEC, Lf.id)
-    v = simp(ff.value)
+    v = simp(fvalue if fvalue is not None else ff.value)
     b = match(("ifexp", ("attr", s2, "is_electron"), V("one"), ("join", ("const", " + "), V("seq"))), v)
     ctx.check(bool(b) and b["one"] in (("const", 1.0), ("const", "1.0"), ("const", 1)), "R1", "factor:electron", (FILE, ff.line),
               "the electron's factor is 1.0 (left untouched)", found=show(v)[:100])
     if b:
-        mm = as_map(b["seq"])
+        # the list of contributions: a comprehension, or a list filled by a loop over the elements
+        mm = _acc_as_map(fl, b["seq"][1], (Lf,), ELEMS) if b["seq"][0] == "acc" else as_map(b["seq"])
         okf = False
         detail = show(b["seq"])[:200]
         if mm:
@@ -285,6 +338,8 @@ def _r2_template(ctx, label, rel, pat):
     idx0 = ("attr", ("name", "loop"), "index0")
     want_row = ("item", ELEMIDX, ("filter", "int", ("bin", "/", idx0, nelem), (), ()))
     want_col = ("item", ELEMIDX, ("bin", "%", idx0, nelem))
+    # compared in canonical form (jmodel.canon): `//` or `(/)|int`, the prefix mapped over the list or applied to the chosen name
+    row, col, want_row, want_col = J.canon(row), J.canon(col), J.canon(want_row), J.canon(want_col)
     ctx.check(row == want_row, "R2", f"{key}:row", (rel, it[5]), "row macro = IDX_ELEM_ name number (loop.index0 / nelem)|int of network.elements",
               expected=J.show(want_row)[:160], found=J.show(row)[:160])
     ctx.check(col == want_col, "R2", f"{key}:col", (rel, it[5]), "column macro = IDX_ELEM_ name number loop.index0 % nelem of network.elements",
@@ -305,7 +360,15 @@ def _r2_template(ctx, label, rel, pat):
     for x, st in J.walk_items(it[3]):
         if x[0] == "set" and x[1][0] == "name":
             sets3[x[1][1]] = _resolve(x[2], sets3)
-    flat = [x for x, st in J.walk_items(it[3]) if x[0] in ("text", "out")]
+    flat = []
+    for x, st in J.walk_items(it[3]):
+        if x[0] == "text":
+            flat.append(x)
+        elif x[0] == "out":
+            # an output that is a concatenation `"ab[" ~ idx ~ "]"` prints its constant pieces as text around its other pieces
+            r = _resolve(x[1], sets3)
+            for part in (r[1] if r[0] == "concat" else (r,)):
+                flat.append(("text", part[1]) + x[2:] if part[0] == "const" and isinstance(part[1], str) else ("out", part) + x[2:])
     txt = "".join(x[1] if x[0] == "text" else f"\x00{i}\x00" for i, x in enumerate(flat))
     mm = re.search(r"ab\s*\[\s*\x00(\d+)\x00\s*\]\s*=\s*ab\s*\[\s*\x00(\d+)\x00\s*\]\s*\*\s*\(\s*\x00(\d+)\x00\s*\)\s*;", txt)
     if not mm:
@@ -423,9 +486,25 @@ MUTANTS = [
     {"name": "solve-in-place-on-reference", "file": CV_MAIN, "old": "flag = SUNLinSolSolve(LS, A, r, b, 0.0);", "new": "flag = SUNLinSolSolve(LS, A, b, b, 0.0);", "rules": ["R3"]},
     {"name": "factor-skips-electron-slot", "file": FILE, "old": "        for spec in species:\n            counts =", "new": "        for spec in [s for s in species if not s.is_electron]:\n            counts =", "rules": ["R1"]},
     {"name": "abundance-wrong-zip", "file": OD_RENORM, "old": "{% for spec, fac in zip(network.species, renorm.factor) -%}", "new": "{% for spec, fac in zip(network.species | rejectattr('is_electron'), renorm.factor) -%}", "rules": ["R2"]},
+    # hardening round 4: the accepted helper / loop / floor-division spellings carrying a defect
+    {"name": "matrix-helper-row-mass", "edits": [
+        {"file": FILE, "old": "    def _prepare_renorm_content(self, netinfo: NetworkInfo) -> RenormContent:\n", "new": "    @staticmethod\n    def _coupling(species, rname, cname, celem):\n        terms = [\"0.0\"]\n        for spec in species:\n            nr = spec.element_count.get(rname, 0)\n            nc = spec.element_count.get(cname, 0)\n            if not spec.is_electron and nr and nc:\n                terms.append(f\"{(nr * nc * celem.A)} * ab[IDX_{spec.alias}] / {spec.A} / Hnuclei\")\n        return \" + \".join(terms)\n\n    def _prepare_renorm_content(self, netinfo: NetworkInfo) -> RenormContent:\n"},
+        {"file": FILE, "old": "        matrix = []\n        for iele, einame in enumerate(elemnames):\n            for jele, ejname in enumerate(elemnames):\n                terms = [\"0.0\"]\n                for ispec, spec in enumerate(species):\n                    ci = spec.element_count.get(einame, 0)\n                    cj = spec.element_count.get(ejname, 0)\n                    if not spec.is_electron and ci and cj:\n                        terms.append(\n                            f\"{(ci * cj * elements[jele].A)} * ab[IDX_{spec.alias}] / {spec.A} / Hnuclei\"\n                        )\n                matrix.append(\" + \".join(terms))\n", "new": "        matrix = [\n            self._coupling(species, rname, cname, celem)\n            for rname in elemnames\n            for cname, celem in zip(elemnames, reversed(elements))\n        ]\n"}], "rules": ["R1"]},
+    {"name": "factor-loop-without-mass", "file": FILE, "old": "        renorm = []\n        for spec in species:\n            counts = [spec.element_count.get(ename, 0) for ename in elemnames]\n            factor = [\n                f\"{c * elem.A} * rptr[IDX_ELEM_{ename}] / {spec.A}\"\n                for c, ename, elem in zip(counts, elemnames, elements)\n                if c\n            ]\n            renorm.append(1.0 if spec.is_electron else \" + \".join(factor))\n", "new": "        renorm = []\n        for spec in species:\n            parts = []\n            for ename, elem in zip(elemnames, elements):\n                n_at = spec.element_count.get(ename, 0)\n                if not n_at:\n                    continue\n                parts.append(\"{} * rptr[IDX_ELEM_{}] / {}\".format(n_at, ename, spec.A))\n            if spec.is_electron:\n                renorm.append(1.0)\n            else:\n                renorm.append(\" + \".join(parts))\n", "rules": ["R1"]},
+    {"name": "factor-loop-skips-electron-slot", "file": FILE, "old": "        renorm = []\n        for spec in species:\n            counts = [spec.element_count.get(ename, 0) for ename in elemnames]\n            factor = [\n                f\"{c * elem.A} * rptr[IDX_ELEM_{ename}] / {spec.A}\"\n                for c, ename, elem in zip(counts, elemnames, elements)\n                if c\n            ]\n            renorm.append(1.0 if spec.is_electron else \" + \".join(factor))\n", "new": "        renorm = []\n        for spec in species:\n            parts = []\n            for ename, elem in zip(elemnames, elements):\n                n_at = spec.element_count.get(ename, 0)\n                if not n_at:\n                    continue\n                parts.append(\"{} * rptr[IDX_ELEM_{}] / {}\".format(n_at * elem.A, ename, spec.A))\n            if not spec.is_electron:\n                renorm.append(\" + \".join(parts))\n", "rules": ["R1"]},
+    {"name": "decode-floordiv-swapped", "file": OD_RENORM, "old": "{% set i, j = (loop.index0/nelem) | int, loop.index0%nelem -%}", "new": "{% set j, i = loop.index0 // nelem, loop.index0 % nelem -%}", "rules": ["R2"]},
+    {"name": "abundance-concat-wrong-alias", "file": OD_RENORM, "old": "    {% set specidx = spec.alias | prefix(\"IDX_\") -%}\n    ab[{{ specidx }}] = ab[{{ specidx }}] * ({{ fac }});", "new": "    {% set slot = \"ab[\" ~ (spec.name | prefix(\"IDX_\")) ~ \"]\" -%}\n    {{ slot }} = {{ slot }} * ({{ fac }});", "rules": ["R2"]},
     {"name": "ref-not-normalised", "file": OD_MAIN, "old": "ab_ref_[i] = ref[i] / ref[IDX_ELEM_H];", "new": "ab_ref_[i] = ref[i];", "rules": ["R3"]},
 ]
 BENIGN = [
     {"name": "coefficient-commuted", "file": FILE, "old": "{(ci * cj * elements[jele].A)}", "new": "{(elements[jele].A * cj * ci)}"},
+    # hardening round 4
+    {"name": "matrix-entry-helper", "edits": [
+        {"file": FILE, "old": "    def _prepare_renorm_content(self, netinfo: NetworkInfo) -> RenormContent:\n", "new": "    @staticmethod\n    def _coupling(species, rname, cname, celem):\n        terms = [\"0.0\"]\n        for spec in species:\n            nr = spec.element_count.get(rname, 0)\n            nc = spec.element_count.get(cname, 0)\n            if not spec.is_electron and nr and nc:\n                terms.append(f\"{(nr * nc * celem.A)} * ab[IDX_{spec.alias}] / {spec.A} / Hnuclei\")\n        return \" + \".join(terms)\n\n    def _prepare_renorm_content(self, netinfo: NetworkInfo) -> RenormContent:\n"},
+        {"file": FILE, "old": "        matrix = []\n        for iele, einame in enumerate(elemnames):\n            for jele, ejname in enumerate(elemnames):\n                terms = [\"0.0\"]\n                for ispec, spec in enumerate(species):\n                    ci = spec.element_count.get(einame, 0)\n                    cj = spec.element_count.get(ejname, 0)\n                    if not spec.is_electron and ci and cj:\n                        terms.append(\n                            f\"{(ci * cj * elements[jele].A)} * ab[IDX_{spec.alias}] / {spec.A} / Hnuclei\"\n                        )\n                matrix.append(\" + \".join(terms))\n", "new": "        matrix = [\n            self._coupling(species, rname, cname, celem)\n            for rname in elemnames\n            for cname, celem in zip(elemnames, elements)\n        ]\n"}]},
+    {"name": "factor-by-loop-two-appends", "file": FILE, "old": "        renorm = []\n        for spec in species:\n            counts = [spec.element_count.get(ename, 0) for ename in elemnames]\n            factor = [\n                f\"{c * elem.A} * rptr[IDX_ELEM_{ename}] / {spec.A}\"\n                for c, ename, elem in zip(counts, elemnames, elements)\n                if c\n            ]\n            renorm.append(1.0 if spec.is_electron else \" + \".join(factor))\n", "new": "        renorm = []\n        for spec in species:\n            parts = []\n            for ename, elem in zip(elemnames, elements):\n                n_at = spec.element_count.get(ename, 0)\n                if not n_at:\n                    continue\n                parts.append(\"{} * rptr[IDX_ELEM_{}] / {}\".format(n_at * elem.A, ename, spec.A))\n            if spec.is_electron:\n                renorm.append(1.0)\n            else:\n                renorm.append(\" + \".join(parts))\n"},
+    {"name": "decode-floordiv-prefix-late", "file": OD_RENORM, "old": "    {% set elemidxnames = network.elements | map(attribute=\"element_count\") | map(\"first\") | map(\"prefix\", \"IDX_ELEM_\") | list %}\n    {% set nelem = elemidxnames | length %}\n\n    {% for term in renorm.matrix -%}\n    {% set i, j = (loop.index0/nelem) | int, loop.index0%nelem -%}\n    A({{ elemidxnames[i] }}, {{ elemidxnames[j] }})",
+      "new": "    {% set enames = network.elements | map(attribute=\"element_count\") | map(\"first\") | list %}\n    {% set nelem = enames | length %}\n\n    {% for term in renorm.matrix -%}\n    {% set i, j = loop.index0 // nelem, loop.index0 % nelem -%}\n    A({{ enames[i] | prefix(\"IDX_ELEM_\") }}, {{ enames[j] | prefix(\"IDX_ELEM_\") }})"},
+    {"name": "abundance-concat", "file": OD_RENORM, "old": "    {% set specidx = spec.alias | prefix(\"IDX_\") -%}\n    ab[{{ specidx }}] = ab[{{ specidx }}] * ({{ fac }});", "new": "    {% set slot = \"ab[\" ~ (spec.alias | prefix(\"IDX_\")) ~ \"]\" -%}\n    {{ slot }} = {{ slot }} * ({{ fac }});"},
     {"name": "guard-commuted", "file": FILE, "old": "if not spec.is_electron and ci and cj:", "new": "if ci and cj and not spec.is_electron:"},
 ]
